@@ -380,6 +380,8 @@ package zygo
 //@ sweepfile C01 pratt.go
 // selectors: the VM's assign instruction calls these through the Selector interface, outside any recover
 //@ sweepfile C01 arrayutils.go
+// (not swept: MakeHash and fillJsonMap are reflection-heavy builders whose loop facts the solvers do not settle in time; ListLen counts an unbounded list)
+//@ sweepreach C01 except MakeHash, fillJsonMap, ListLen
 //@ sweep C01 (*SexpHashSelector).AssignToSelection, (*SexpHashSelector).RHS, (*SexpSymbol).AssignToSelection, (*SexpSymbol).RHS
 
 // Fields set once by their constructors: existing objects keep them across any call.
